@@ -155,8 +155,6 @@ class Harness:
         for s in self.sources:
             p = s if os.path.isabs(s) else os.path.join(VERIF, s)
             fl = self.flags(self.shim)
-            if self.cov:
-                fl = fl + ["-fsanitize-coverage=trace-pc-guard"]
             jobs.append((p, fl, True))
         for s in self.tlx_cpp:
             jobs.append((os.path.join(REPO, s), self.flags(False), True))
@@ -166,8 +164,6 @@ class Harness:
             # scheduler core: plain C, no sanitizer, no STL
             jobs.append((os.path.join(VERIF, "engine/sched/vsched.c"),
                          ["-O2", "-g", "-fno-omit-frame-pointer", "-I", os.path.join(VERIF, "engine")], False))
-        if self.cov:
-            jobs.append((os.path.join(VERIF, "engine/common/vcov.c"), ["-O2"], False))
         with cf.ThreadPoolExecutor(max_workers=NCPU) as ex:
             futs = [ex.submit(compile_object, p, fl, cxx) for (p, fl, cxx) in jobs]
             objs = [f.result() for f in futs]
